@@ -3,7 +3,7 @@
 //! Format (`/verif/known_findings.json`):
 //! ```json
 //! { "findings": [ { "property": "C01", "signature": "...", "what": "...", "replay": "replays/C01/x.json",
-//!                   "avoid": ["switch-name"] } ],
+//!                   "avoid": ["switch-name"], "in_campaigns": false } ],
 //!   "fixed": [ "fixed: property=C23 <commit> <what failed>" ] }
 //! ```
 //! A failure is excused iff its signature equals a listed signature for the same property.
@@ -21,6 +21,12 @@ pub struct Finding {
     pub replay: Option<String>,
     #[serde(default)]
     pub avoid: Vec<String>,
+    /// true: generated campaigns can still hit this finding (its trigger cannot be excluded by
+    /// construction), so a campaign failure with this signature is counted, not reported.
+    /// false (default): the finding is demonstrated by its replay file only; campaigns never
+    /// excuse its signature, so a new defect with the same symptom is still reported.
+    #[serde(default)]
+    pub in_campaigns: bool,
 }
 
 #[derive(Deserialize, Default)]
@@ -75,7 +81,7 @@ impl KnownFindings {
     }
 
     pub fn is_known(&self, signature: &str) -> bool {
-        self.entries.iter().any(|f| f.signature == signature)
+        self.entries.iter().any(|f| f.in_campaigns && f.signature == signature)
     }
 
     pub fn avoid(&self, switch: &str) -> bool {
